@@ -212,7 +212,16 @@ class World:
                 continue
             op = {"id": op_id, "k": kind, "sub": sub, "h": h, "keep": orng.random() < self.cfg.get("keep_prob", 0.4)}
             op.update(args)
-            if kind == "copy" and orng.random() < (0.35 if self.prop in ("C06", "C12", "C05") else 0.1):
+            if kind == "copy" and op.get("dh", h) != h and op.get("dh") in self.h and self.prop in ("C01", "C03") and orng.random() < 0.5:
+                # pattern "edits in step": the copy in the other file and its source (same identifier, two files) receive the same
+                # assignment one after the other -- what is written for one file says nothing about the other
+                same_name = build.name(orng)
+                self.sim.probe("edits_in_step_planned")
+                self.pending = [
+                    {"id": -1, "k": "rename", "sub": rng.getrandbits(64), "h": op["dh"], "keep": False, "t": {"by": op_id, "n": 0, "fb": 0, "want": "entity"}, "name": same_name},
+                    {"id": -1, "k": "rename", "sub": rng.getrandbits(64), "h": h, "keep": False, "t": op["t"], "name": same_name},
+                ]
+            elif kind == "copy" and orng.random() < (0.35 if self.prop in ("C06", "C12", "C05") else 0.1):
                 # pattern: copy -> remove the copy -> (drop, collect) -> copy the same source again
                 dh = op["dh"] if op["dh"] in self.h else h
                 rm_kind = "rm_ws" if orng.random() < 0.7 else "rm_parent"
